@@ -64,6 +64,8 @@ def edges_replay(chk, emitted):
             forms.append(('offset-2e6', np.array(ints, dtype='float64') * 4.0 + 2.0e6))
         if i % 3 == 0:
             forms.append(('int-array', np.array(ints, dtype='int64') * 3 + 100))
+        # unsigned integer arrays (differences of unsigned values wrap around instead of going negative), signed narrow ones, float32
+        forms.append((['uint8', 'uint16', 'int8', 'uint32', 'float32'][i % 5], (np.array(ints, dtype='int64') * 7 + 10).astype(['uint8', 'uint16', 'int8', 'uint32', 'float32'][i % 5])))
         for fname, ed in forms:
             where = wheres[i % 4] if chk.tier == 'quick' else None
             for wh in ([where] if where else wheres):
